@@ -30,17 +30,26 @@ def _alarm(signum, frame):
 
 
 def table_hashes(data):
+    """-> ({tag: sha256[:16]}, {tag: size}, head bytes as hex or None)"""
     from fontTools.ttLib import TTFont
 
     f = TTFont(io.BytesIO(data), lazy=True)
     out = {}
+    sizes = {}
     head = None
     for tag in f.reader.keys():
         raw = f.reader[tag]
         out[tag] = hashlib.sha256(raw).hexdigest()[:16]
+        sizes[tag] = len(raw)
         if tag == "head":
             head = raw.hex()
-    return out, head
+    return out, sizes, head
+
+
+def _save(font, kw):
+    b = io.BytesIO()
+    font.save(b, **kw)
+    return b.getvalue()
 
 
 def run_one(job, tmpdir):
@@ -50,9 +59,8 @@ def run_one(job, tmpdir):
     rec = {"name": job["name"]}
     try:
         font, kw = pipelines.run_pipeline(job, tmpdir)
-        b1 = io.BytesIO()
-        font.save(b1, **kw)
-        d1 = b1.getvalue()
+        loaded0 = set(font.tables)
+        d1 = _save(font, kw)
     except _Timeout:
         raise
     except Exception as e:
@@ -62,22 +70,30 @@ def run_one(job, tmpdir):
         return rec
     rec["sha"] = hashlib.sha256(d1).hexdigest()
     rec["size"] = len(d1)
-    rec["tables"], rec["head"] = table_hashes(d1)
-    # second save of the same object
-    try:
-        b2 = io.BytesIO()
-        font.save(b2, **kw)
-        d2 = b2.getvalue()
-        rec["sha2"] = hashlib.sha256(d2).hexdigest()
-        if d2 != d1:
-            rec["tables2"], rec["head2"] = table_hashes(d2)
-            rec["size2"] = len(d2)
-    except _Timeout:
-        raise
-    except Exception as e:
-        rec["exc2"] = type(e).__name__
-        rec["msg2"] = str(e)[:200]
-        rec["where2"] = innermost_frame(e)
+    rec["tables"], rec["sizes"], rec["head"] = table_hashes(d1)
+    # tables the first save decompiled by itself (they had not been loaded before)
+    loaded1 = set(font.tables)
+    rec["loaded_by_save"] = sorted(t for t in loaded1 - loaded0 if t != "GlyphOrder")
+    # second save of the same object (and a third when the first save changed the set of loaded tables)
+    prev = d1
+    for n in ("2", "3"):
+        try:
+            d = _save(font, kw)
+        except _Timeout:
+            raise
+        except Exception as e:
+            rec["exc" + n] = type(e).__name__
+            rec["msg" + n] = str(e)[:200]
+            rec["where" + n] = innermost_frame(e)
+            break
+        rec["sha" + n] = hashlib.sha256(d).hexdigest()
+        if d != prev:
+            rec["tables" + n], rec["sizes" + n], rec["head" + n] = table_hashes(d)
+        elif n == "3" and "tables2" in rec:
+            rec["tables3"], rec["sizes3"], rec["head3"] = rec["tables2"], rec["sizes2"], rec["head2"]
+        if n == "2" and (d == d1 or not rec["loaded_by_save"]):
+            break
+        prev = d
     return rec
 
 
@@ -89,7 +105,10 @@ def main(argv):
         jobs = json.load(fh)
     tmpdir = argv[2]
     signal.signal(signal.SIGALRM, _alarm)
-    out = sys.stdout
+    # result lines go to the real stdout, prefixed; anything the library prints goes to stderr
+    out = os.fdopen(os.dup(1), "w")
+    os.dup2(2, 1)
+    sys.stdout = sys.stderr
     env = {
         "hashseed": os.environ.get("PYTHONHASHSEED"),
         "cwd": os.getcwd(),
@@ -98,7 +117,7 @@ def main(argv):
         "epoch": os.environ.get("SOURCE_DATE_EPOCH"),
         "hash_of_a": hash("a") & 0xFFFF,
     }
-    out.write(json.dumps({"env": env}) + "\n")
+    out.write("C16 " + json.dumps({"env": env}) + "\n")
     for job in jobs:
         signal.setitimer(signal.ITIMER_REAL, JOB_SECONDS)
         try:
@@ -109,7 +128,7 @@ def main(argv):
             rec = {"name": job["name"], "harness": "".join(traceback.format_exception(type(e), e, e.__traceback__))[-1500:]}
         finally:
             signal.setitimer(signal.ITIMER_REAL, 0)
-        out.write(json.dumps(rec) + "\n")
+        out.write("C16 " + json.dumps(rec) + "\n")
         out.flush()
     return 0
 
